@@ -289,7 +289,7 @@ func checkMgrSink(c *harness.Case, s *state, ds dpSink) *verdict {
 			if ownerTun == "" {
 				c.Count("p2_skipped_owner_no_vtep", 1)
 				if len(es) != 0 {
-					return &verdict{"route-without-vtep", fmt.Sprintf("%s: the owner has no VTEP yet something is programmed: %s", what, fmtEntries(es))}
+					return &verdict{"route-via-withdrawn-vtep", fmt.Sprintf("%s: the owner has no VTEP yet something is programmed: %s", what, fmtEntries(es))}
 				}
 				continue
 			}
